@@ -1,0 +1,40 @@
+//go:build verif
+
+// Contracts for package types, checked by /verif/govc (comment-only; see /verif/DESIGN.md).
+package types
+
+//@ func safeAdd(a, b int64) (r int64, ovf bool)
+//@   for C12
+//@   ensures ovf <==> (a + b > 9223372036854775807 || a + b < -9223372036854775808)
+//@   ensures !ovf ==> r == a + b
+//@   nooverflow
+
+//@ func safeSub(a, b int64) (r int64, ovf bool)
+//@   for C12
+//@   ensures ovf <==> (a - b > 9223372036854775807 || a - b < -9223372036854775808)
+//@   ensures !ovf ==> r == a - b
+//@   nooverflow
+
+//@ func safeAddClip(a, b int64) (r int64)
+//@   for C12
+//@   ensures r == max(-9223372036854775808, min(9223372036854775807, a + b))
+
+//@ func safeSubClip(a, b int64) (r int64)
+//@   for C12
+//@   ensures r == max(-9223372036854775808, min(9223372036854775807, a - b))
+
+//@ spec func maxPrio(vals []*Validator, n int) int = ite(n <= 1, vals[0].ProposerPriority, max(maxPrio(vals, n-1), vals[n-1].ProposerPriority))
+//@ spec func minPrio(vals []*Validator, n int) int = ite(n <= 1, vals[0].ProposerPriority, min(minPrio(vals, n-1), vals[n-1].ProposerPriority))
+
+//@ func computeMaxMinPriorityDiff(vals *ValidatorSet) (r int64)
+//@   for C12
+//@   requires vals != nil && len(vals.Validators) > 0
+//@   requires forall i int :: 0 <= i && i < len(vals.Validators) ==> vals.Validators[i] != nil
+//@   requires forall i int :: 0 <= i && i < len(vals.Validators) ==> -4611686018427387904 < vals.Validators[i].ProposerPriority && vals.Validators[i].ProposerPriority < 4611686018427387904
+//@   ensures r == maxPrio(vals.Validators, len(vals.Validators)) - minPrio(vals.Validators, len(vals.Validators))
+//@   nooverflow
+//@   loop 1:
+//@     invariant 0 <= iter && iter <= len(vals.Validators)
+//@     invariant iter > 0 ==> max == maxPrio(vals.Validators, iter) && min == minPrio(vals.Validators, iter)
+//@     invariant iter > 0 ==> -4611686018427387904 < min && min <= max && max < 4611686018427387904
+//@     invariant iter == 0 ==> max == -9223372036854775808 && min == 9223372036854775807
